@@ -53,6 +53,18 @@ def von_mises(env, model, **cfg):
     s, h = _vm(env, cfg, model)
     ins = h.inputs()
     vm = h.compute(ins)["vonmises"]
+    # the stresses are a function of the current displacements alone: on a live component last evaluated at another point
+    # nothing of the earlier result remains, whichever branch the recovery takes (undeformed elements included)
+    hv = env.comp("vm.live", h.factory)
+    insP = hv.inputs(tag="P.")
+
+    def revisit():
+        st = hv.out_store()
+        hv.compute(insP, outs=st)
+        return hv.compute(ins, outs=st)
+    for path, o in env.explore(revisit):
+        tag = (" @path(%s)" % ";".join("%s=%s" % (repr(c)[:40], "T" if b else "F") for c, b in path)) if path else ""
+        env.eq("C15", "von Mises stresses after an earlier evaluation at another point equal those of a fresh evaluation" + tag, o["vonmises"], vm)
     if env.sym:
         ok = all(nonneg_by_construction(v) for v in np.asarray(vm, dtype=object).reshape(-1))
         env.holds("C15", "von Mises stresses are non-negative by construction (non-negative multiples of principal roots)", ok)
